@@ -56,6 +56,9 @@ def has_orthogonal(c):
     return 'orthogonal' in c['kind']
 
 
+EPOCH = 1600000000      # runs that start at a large absolute time (a clock set to a timestamp)
+
+
 def cfg_C02(tier, rng):
     return [dict(name='skeleton', charts=f1(tier, rng, sample_t=2500) + shipped(max_oracle=4)
                  + gc.family_hist(rng, 25 if tier == QUICK else 250) + gc.family_hist_orth(rng, 10 if tier == QUICK else 60)
@@ -117,13 +120,15 @@ def cfg_C04(tier, rng):
 
 
 def cfg_C05(tier, rng):
-    k = 7 if tier == QUICK else 100
+    k = 5 if tier == QUICK else 100
     charts = gc.family_f3(rng, k, nmin=3, nmax=5, tmin=3, tmax=6, nev=2, max_oracle=2)
     return [dict(name='queues', charts=charts,
                  consts=dict(MaxQ=2 if tier == QUICK else 3, MaxClk=2 if tier == QUICK else 3,
                              Delays={0, 1, 2}, Advances={1, 2}, Params={0},
                              MaxLevel=6 if tier == QUICK else 8),
-                 variants=[dict(variant='api', shadow=True)],
+                 variants=[dict(variant='api', shadow=True), dict(variant='api', epoch=EPOCH)],
+                 jobs_for=(lambda ci, h, r: [[dict(variant='api', shadow=True), dict(variant='api', epoch=EPOCH)][(ci + len(h)) % 2]])
+                 if tier == QUICK else None,
                  random=dict(count=300 if tier == QUICK else 3000, length=30, delays=(0, 0, 1, 2, 3),
                              advances=(1, 2), params=(0, 7), maxq=5,
                              family=lambda r, kk: gc.family_f3(r, kk, nmin=4, nmax=8)))]
@@ -141,7 +146,9 @@ def cfg_C13(tier, rng):
     return [dict(name='time', charts=charts,
                  consts=dict(MaxQ=1, MaxClk=4 if tier == QUICK else 5, Delays={0, 1}, Advances={1, 2},
                              MaxLevel=8 if tier == QUICK else 10),
-                 variants=[dict(variant='api', shadow=True)],
+                 variants=[dict(variant='api', shadow=True), dict(variant='api', epoch=EPOCH)],
+                 jobs_for=(lambda ci, h, r: [[dict(variant='api', shadow=True), dict(variant='api', epoch=EPOCH)][(ci + len(h)) % 2]])
+                 if tier == QUICK else None,
                  random=dict(count=200 if tier == QUICK else 2000, length=25, delays=(0, 1, 2),
                              advances=(1, 2, 3), maxq=3,
                              family=lambda r, kk: gc.family_f3(r, kk, nmin=4, nmax=8, time_guards=True)))]
@@ -618,8 +625,14 @@ def run_stage(prop, tier, seed, stage, rng):
             for b in r['bad']:
                 if b[0] != prop:
                     cross['%s.%s' % (b[0], b[1])] += 1
+            exc = t['lines'][ln]['exc']
+            if exc == 'Hang' or exc.startswith('BuildFailed'):
+                # the call (or building the statechart through the public API) did not return / failed although
+                # the model says it returns: no clause of any property can hold for a result that never comes
+                mine.append([ln + 1, prop, 'returns'])
             if mine:
                 viol.append((dict(t, hist=t['hist'][:ln + 1], lines=t['lines'][:ln + 1]), mine, r))
+    out['skipped_after_hangs'] = sum(1 for t in traces if t.get('skipped'))
     out['divergences'] = divs
     out['divergence_samples'] = divsamples
     out['cross_failures'] = dict(cross)
@@ -747,6 +760,9 @@ def replay_file(prop, path):
     allbad = []
     for ln, u in enumerate(traces[0]['uids']):
         allbad += [[ln + 1] + list(b) for b in reports[u]['bad']]
+        exc = traces[0]['lines'][ln]['exc']
+        if exc == 'Hang' or exc.startswith('BuildFailed'):
+            allbad.append([ln + 1, prop, 'returns'])
     print(json.dumps({'failing': allbad}))
     r = {'bad': [b[1:] for b in allbad]}
     mine = [b for b in (r['bad'] if r else []) if b[0] == prop]
